@@ -8,6 +8,7 @@ import (
 	"io"
 	"log"
 	"os"
+	"os/exec"
 	"path/filepath"
 	"regexp"
 	"runtime"
@@ -18,6 +19,7 @@ import (
 	"strings"
 	"sync"
 	"sync/atomic"
+	"syscall"
 	"time"
 )
 
@@ -463,7 +465,19 @@ func Main(prop, level string, run func(*Run)) {
 		pprof.StartCPUProfile(f)
 		AtExit = pprof.StopCPUProfile
 	}
+	if os.Getenv("VERIF_CHILD") == "" && os.Getenv("VERIF_NO_SUPERVISOR") == "" {
+		supervise(prop, level) // does not return
+	}
 	r := Start(prop, level)
+	if pf := os.Getenv("VERIF_PROGRESS_FILE"); pf != "" {
+		go func() {
+			for {
+				time.Sleep(3 * time.Second)
+				r.ExportSummary(pf + ".tmp")
+				os.Rename(pf+".tmp", pf)
+			}
+		}()
+	}
 	run(r)
 	if cs := os.Getenv("VERIF_COMPANION_SUMMARY"); cs != "" {
 		if err := r.ImportSummary(cs, "companion"); err != nil {
@@ -561,4 +575,131 @@ func ShmBase() string {
 		return "/dev/shm"
 	}
 	return os.TempDir()
+}
+
+// supervise runs the check proper in a child process. A panic in a goroutine that the code under
+// test started itself (scorch's persister, merger, in-memory merge workers …) cannot be recovered
+// by the harness and kills the process: without a supervisor such a crash would end the check
+// with neither an evidence file nor a VIOLATION line. The parent passes the child's output
+// through; if the child dies of a Go panic / fatal error whose innermost non-runtime frame is not
+// harness code, the crash is reported as a violation (class crash:<function>) of the property
+// being checked, with whatever bookkeeping the child had checkpointed; a crash inside harness
+// code, or a child killed from outside, is a harness problem (exit 3).
+func supervise(prop, level string) {
+	root := Root()
+	os.MkdirAll(filepath.Join(root, ".build"), 0o755)
+	progress := filepath.Join(root, ".build", fmt.Sprintf("progress-%s-%d.json", prop, os.Getpid()))
+	defer os.Remove(progress)
+	cmd := exec.Command(os.Args[0], os.Args[1:]...)
+	cmd.Env = append(os.Environ(), "VERIF_CHILD=1", "VERIF_PROGRESS_FILE="+progress)
+	cmd.Stdin, cmd.Stdout = os.Stdin, os.Stdout
+	cmd.SysProcAttr = &syscall.SysProcAttr{Pdeathsig: syscall.SIGKILL} // the child must not outlive a killed supervisor
+	tail := &tailWriter{max: 1 << 20}
+	cmd.Stderr = io.MultiWriter(os.Stderr, tail)
+	err := cmd.Run()
+	if err == nil {
+		os.Remove(progress)
+		os.Exit(0)
+	}
+	code := -1
+	if ee, ok := err.(*exec.ExitError); ok {
+		code = ee.ExitCode()
+	}
+	msg, top, stack := parseCrash(tail.String())
+	if code != 2 || msg == "" {
+		// an ordinary verdict (1 = violation, 3 = harness problem) or a death from outside
+		os.Remove(progress)
+		if code < 0 {
+			fmt.Fprintln(os.Stderr, "harness: the check process was killed:", err)
+			code = 3
+		}
+		os.Exit(code)
+	}
+	if top == "" || strings.HasPrefix(top, "verif/") || strings.HasPrefix(top, "main.") {
+		fmt.Fprintf(os.Stderr, "harness: the check process crashed inside harness code (%s): %s\n", top, msg)
+		os.Remove(progress)
+		os.Exit(3)
+	}
+	r := Start(prop, level)
+	if err := r.ImportSummary(progress, "before-crash"); err != nil {
+		r.Cap("the check process crashed before its first bookkeeping checkpoint")
+	}
+	os.Remove(progress)
+	fn := top
+	if i := strings.LastIndex(fn, "/"); i >= 0 {
+		fn = fn[i+1:]
+	}
+	r.Rule("the check process was killed by a panic in a goroutine of the code under test; bookkeeping up to the last checkpoint is reported under before-crash:*")
+	r.Cap("the exploring process crashed: " + msg + " — exploration incomplete")
+	r.Violation("crash:"+fn, fmt.Sprintf("the process running the check died: %s in %s (a goroutine the harness cannot recover: the library crashed its host process while the harness was using the public API)", msg, top),
+		map[string]any{"panic": msg, "innermost_frame": top, "stack": stack, "how": "re-run this check; the crash kills the process"})
+	r.Finish()
+}
+
+type tailWriter struct {
+	mu  sync.Mutex
+	buf []byte
+	max int
+}
+
+func (t *tailWriter) Write(p []byte) (int, error) {
+	t.mu.Lock()
+	defer t.mu.Unlock()
+	t.buf = append(t.buf, p...)
+	if len(t.buf) > 2*t.max {
+		t.buf = append([]byte{}, t.buf[len(t.buf)-t.max:]...)
+	}
+	return len(p), nil
+}
+func (t *tailWriter) String() string { t.mu.Lock(); defer t.mu.Unlock(); return string(t.buf) }
+
+// parseCrash finds the last Go panic / fatal error report in stderr text and returns its message,
+// the innermost non-runtime function of the crashing goroutine and a trimmed stack.
+func parseCrash(s string) (msg, top, stack string) {
+	i := strings.LastIndex(s, "\npanic: ")
+	if j := strings.LastIndex(s, "\nfatal error: "); j > i {
+		i = j
+	}
+	if i < 0 {
+		if strings.HasPrefix(s, "panic: ") || strings.HasPrefix(s, "fatal error: ") {
+			i = 0
+		} else {
+			return "", "", ""
+		}
+	} else {
+		i++
+	}
+	lines := strings.Split(s[i:], "\n")
+	msg = lines[0]
+	var keep []string
+	inG := false
+	for _, l := range lines[1:] {
+		if strings.HasPrefix(l, "goroutine ") {
+			if inG {
+				break // only the crashing goroutine
+			}
+			inG = true
+			continue
+		}
+		if !inG || l == "" {
+			if inG && l == "" {
+				break
+			}
+			continue
+		}
+		keep = append(keep, l)
+		if top == "" && !strings.HasPrefix(l, "\t") && !strings.HasPrefix(l, "panic(") && !strings.HasPrefix(l, "runtime.") && !strings.HasPrefix(l, "runtime/") && !strings.HasPrefix(l, "[") && !strings.HasPrefix(l, "created by ") {
+			top = l
+			if k := strings.Index(top, "("); k > 0 {
+				// strip the argument list, keep "(*T).method"
+				if m := strings.LastIndex(top, "("); m > 0 && !strings.HasPrefix(top[m:], "(*") {
+					top = top[:m]
+				}
+			}
+		}
+	}
+	if len(keep) > 40 {
+		keep = keep[:40]
+	}
+	return msg, top, strings.Join(keep, "\n")
 }
